@@ -34,6 +34,10 @@ def write_files(sc, work):
     sign = sc.get("field_sign", 1)
     for n, (a, b) in enumerate(partition(len(sc["ftimes"]), sc["cuts"])):
         U, V, S = formula_fields(sc["fm"], fnum[a:b], N, jmax, imax, scalar=sc["hasscal"])
+        if sc.get("levels_uv"):                      # per-level constant flow (TLC-generated composition scenarios)
+            for k, (uu, vv) in enumerate(sc["levels_uv"]):
+                U[:, k] = uu
+                V[:, k] = vv
         U, V = sign * U, sign * V
         W = None
         if sc.get("wfield"):
